@@ -110,8 +110,12 @@ def gen_iface(rng, n_ns=None, styles=None, rich=True, encoded=False):
             return out
         ops.append({"name": "op%d" % i, "style": style, "in": params("a", rng.randint(0, 3)),
                     "out": params("r", rng.choice([0, 1, 1, 2]))})
+    enums = {}
+    if rich and not encoded:
+        for i in range(rng.choice([0, 1, 1, 2])):
+            enums[(rng.randrange(n_ns), "E%d" % i)] = rng.sample(["A", "B", "C_1", "dd", "E2", "f"], rng.randint(1, 4))
     return {"namespaces": nss, "types": types, "type_order": order, "ops": ops, "arrays": arrays,
-            "array_order": array_order, "encoded": encoded}
+            "array_order": array_order, "encoded": encoded, "enums": enums}
 
 
 def flatten_particle(p, path=()):
@@ -435,11 +439,34 @@ class Rendering:
         self.element_refs = kw.get("element_refs", False)
         self.split_blocks = kw.get("split_blocks", False)
         self.documents = kw.get("documents", None)    # None | "import" | "include"
+        self.wsdl_tns_is_ns0 = kw.get("wsdl_tns_is_ns0", False)
+        self.mixed_block_forms = kw.get("mixed_block_forms", False)
+        self.inline = set()        # filled by render() when anonymous
+
+
+def inlinable(iface):
+    """Types that may be written as anonymous types of the one element that uses them."""
+    uses = {}
+    for key, t in iface["types"].items():
+        for m, path in flatten_particle(t["particle"]):
+            if m["type"][0] == "c":
+                uses.setdefault(m["type"][1], []).append(key)
+    bases = set(t["base"] for t in iface["types"].values() if t["base"])
+    params = set(p["type"][1] for op in iface["ops"] for p in op["in"] + op["out"] if p["type"][0] == "c")
+    items = set(v[1] for v in iface.get("arrays", {}).values() if v[0] == "c")
+    out = set()
+    for key, t in iface["types"].items():
+        u = uses.get(key, [])
+        if len(u) == 1 and u[0] != key and u[0][0] == key[0] and t["base"] is None and key not in bases \
+                and key not in params and key not in items:
+            out.add(key)
+    return out
 
 
 def random_rendering(rng):
     return Rendering(rng, prefixes={i: rng.choice(["t%d" % i, "ns%d" % i, "p%s" % "abc"[i % 3] * (i + 1)]) for i in range(3)},
-                     default_ns_schema=rng.random() < 0.4, shuffle=rng.random() < 0.7, groups=rng.random() < 0.5,
+                     wsdl_tns_is_ns0=rng.random() < 0.3, anonymous=rng.random() < 0.4,
+                     mixed_block_forms=rng.random() < 0.3, default_ns_schema=rng.random() < 0.4, shuffle=rng.random() < 0.7, groups=rng.random() < 0.5,
                      attr_groups=rng.random() < 0.5, element_refs=rng.random() < 0.4, split_blocks=rng.random() < 0.4)
 
 
@@ -458,26 +485,38 @@ def _q(r, iface, ttype, own_ns=None):
     return "%s:%s" % (r.prefixes[ns], name)
 
 
-def _member_xml(r, iface, m, own_ns):
-    a = ['name="%s"' % m["name"], 'type="%s"' % _q(r, iface, m["type"], own_ns)]
+def _member_xml(r, iface, m, own_ns, block_form=None, extra_decls=None):
+    inline = m["type"][0] == "c" and m["type"][1] in r.inline
+    a = ['name="%s"' % m["name"]]
+    if not inline:
+        a.append('type="%s"' % _q(r, iface, m["type"], own_ns))
     if m["min"] != 1:
         a.append('minOccurs="%s"' % m["min"])
     if m["max"] != 1:
         a.append('maxOccurs="%s"' % m["max"])
     if m["nillable"]:
         a.append('nillable="true"')
-    if m["form"]:
-        a.append('form="%s"' % m["form"])
+    form = m["form"]
+    if block_form is not None:
+        # the enclosing schema block's default differs from the namespace's: say the form when it is not the block's
+        resolved = m["form"] or iface["namespaces"][own_ns]["form"]
+        form = None if resolved == block_form else resolved
+    if form:
+        a.append('form="%s"' % form)
+    if inline:
+        return "<xsd:element %s>%s</xsd:element>" % (" ".join(a), _type_xml(r, iface, m["type"][1], extra_decls, False,
+                                                                            block_form))
     return "<xsd:element %s/>" % " ".join(a)
 
 
-def _particle_xml(r, iface, p, own_ns, extra_decls, tag_hint):
+def _particle_xml(r, iface, p, own_ns, extra_decls, tag_hint, block_form=None):
     tag = {"seq": "sequence", "choice": "choice", "all": "all"}[p["kind"]]
     inner = []
     for i, it in enumerate(p["items"]):
         if "kind" in it:
-            inner.append(_particle_xml(r, iface, it, own_ns, extra_decls, "%s_%d" % (tag_hint, i)))
-        elif r.element_refs and it["form"] is None and iface["namespaces"][own_ns]["form"] == "qualified" \
+            inner.append(_particle_xml(r, iface, it, own_ns, extra_decls, "%s_%d" % (tag_hint, i), block_form))
+        elif r.element_refs and block_form is None and not (it["type"][0] == "c" and it["type"][1] in r.inline) \
+                and it["form"] is None and iface["namespaces"][own_ns]["form"] == "qualified" \
                 and r.rng is not None and r.rng.random() < 0.5:
             # a global element + ref: same expanded name because the schema is qualified
             gname = it["name"]
@@ -492,11 +531,11 @@ def _particle_xml(r, iface, p, own_ns, extra_decls, tag_hint):
                 refq = gname if r.default_ns_schema else "%s:%s" % (r.prefixes[own_ns], gname)
                 inner.append('<xsd:element ref="%s"%s/>' % (refq, occ))
             else:
-                inner.append(_member_xml(r, iface, it, own_ns))
+                inner.append(_member_xml(r, iface, it, own_ns, block_form, extra_decls))
         else:
-            inner.append(_member_xml(r, iface, it, own_ns))
+            inner.append(_member_xml(r, iface, it, own_ns, block_form, extra_decls))
     body = "<xsd:%s>%s</xsd:%s>" % (tag, "".join(inner), tag)
-    if r.groups and p["kind"] != "all" and r.rng is not None and r.rng.random() < 0.5:
+    if r.groups and block_form is None and p["kind"] != "all" and r.rng is not None and r.rng.random() < 0.5:
         gname = "G_%s" % tag_hint
         extra_decls["groups"].append('<xsd:group name="%s">%s</xsd:group>' % (gname, body))
         refq = gname if r.default_ns_schema else "%s:%s" % (r.prefixes[own_ns], gname)
@@ -504,7 +543,7 @@ def _particle_xml(r, iface, p, own_ns, extra_decls, tag_hint):
     return body
 
 
-def _type_xml(r, iface, key, extra_decls, name_attr=True):
+def _type_xml(r, iface, key, extra_decls, name_attr=True, block_form=None):
     t = iface["types"][key]
     ns = key[0]
     attrs = []
@@ -521,7 +560,7 @@ def _type_xml(r, iface, key, extra_decls, name_attr=True):
         extra_decls["groups"].append('<xsd:attributeGroup name="%s">%s</xsd:attributeGroup>' % (gname, attr_xml))
         refq = gname if r.default_ns_schema else "%s:%s" % (r.prefixes[ns], gname)
         attr_xml = '<xsd:attributeGroup ref="%s"/>' % refq
-    part = _particle_xml(r, iface, t["particle"], ns, extra_decls, key[1])
+    part = _particle_xml(r, iface, t["particle"], ns, extra_decls, key[1], block_form)
     head = '<xsd:complexType name="%s">' % key[1] if name_attr else "<xsd:complexType>"
     if t["base"] is not None:
         return '%s<xsd:complexContent><xsd:extension base="%s">%s%s</xsd:extension></xsd:complexContent></xsd:complexType>' % (
@@ -530,38 +569,68 @@ def _type_xml(r, iface, key, extra_decls, name_attr=True):
 
 
 def render_schemas(r, iface):
-    """{ns index: [schema block xml, ...]} (several blocks when split_blocks)."""
+    """{ns index: [schema block xml, ...]} (several blocks when split_blocks / mixed_block_forms)."""
     out = {}
     n = len(iface["namespaces"])
+    r.inline = set()
+    if r.anonymous and r.rng is not None and not iface.get("encoded"):
+        r.inline = set(k for k in sorted(inlinable(iface)) if r.rng.random() < 0.7)
+        # an inlined type must not itself contain an inlined type's only user chain that loops; one level is enough
+        r.inline = set(k for k in r.inline
+                       if not any(m["type"][0] == "c" and m["type"][1] in r.inline
+                                  for m, _ in flatten_particle(iface["types"][k]["particle"])))
     for ns in range(n):
         extra = {"elements": {}, "groups": []}
-        decls = []
-        for key in iface["type_order"]:
-            if key[0] == ns:
+        form = iface["namespaces"][ns]["form"]
+        opp = "unqualified" if form == "qualified" else "qualified"
+        keys = [k for k in iface["type_order"] if k[0] == ns and k not in r.inline]
+        in_b = set()
+        if r.mixed_block_forms and r.rng is not None and len(keys) >= 2:
+            in_b = set(k for k in keys if r.rng.random() < 0.5)
+            if len(in_b) == len(keys):
+                in_b.discard(keys[0])
+        decls, decls_b = [], []
+        for key in keys:
+            if key in in_b:
+                decls_b.append(_type_xml(r, iface, key, extra, True, opp))
+            else:
                 decls.append(_type_xml(r, iface, key, extra))
         for akey in iface.get("array_order", []):
             if akey[0] == ns:
                 decls.append('<xsd:complexType name="%s"><xsd:complexContent><xsd:restriction base="soapenc:Array">'
                              '<xsd:attribute ref="soapenc:arrayType" wsdl:arrayType="%s[]"/></xsd:restriction>'
                              '</xsd:complexContent></xsd:complexType>' % (akey[1], _q(r, iface, iface["arrays"][akey])))
+        for ekey, vals in sorted(iface.get("enums", {}).items()):
+            if ekey[0] == ns:
+                decls.append('<xsd:simpleType name="%s"><xsd:restriction base="xsd:string">%s</xsd:restriction>'
+                             '</xsd:simpleType>' % (ekey[1], "".join('<xsd:enumeration value="%s"/>' % v for v in vals)))
         if ns == 0:
             for op in iface["ops"]:
                 decls += _op_elements(r, iface, op, extra)
         decls += list(extra["elements"].values()) + extra["groups"]
         if r.shuffle and r.rng is not None:
             r.rng.shuffle(decls)
+            r.rng.shuffle(decls_b)
         imports = "".join('<xsd:import namespace="%s"/>' % iface["namespaces"][j]["uri"] for j in range(n) if j != ns)
         if iface.get("encoded"):
             imports += '<xsd:import namespace="%s"/>' % ENC
         nsdecl = " ".join('xmlns:%s="%s"' % (r.prefixes[j], iface["namespaces"][j]["uri"]) for j in range(n))
         dflt = ' xmlns="%s"' % iface["namespaces"][ns]["uri"] if r.default_ns_schema else ""
-        head = '<xsd:schema xmlns:xsd="%s" xmlns:soapenc="%s" xmlns:wsdl="%s" %s%s targetNamespace="%s" elementFormDefault="%s">' % (
-            XSD, ENC, WSDLNS, nsdecl, dflt, iface["namespaces"][ns]["uri"], iface["namespaces"][ns]["form"])
-        if r.split_blocks and len(decls) > 1 and r.rng is not None:
+        def head(f):
+            return '<xsd:schema xmlns:xsd="%s" xmlns:soapenc="%s" xmlns:wsdl="%s" %s%s targetNamespace="%s" ' \
+                   'elementFormDefault="%s">' % (XSD, ENC, WSDLNS, nsdecl, dflt, iface["namespaces"][ns]["uri"], f)
+        if decls_b:
+            blocks = [head(form) + imports + "".join(decls) + "</xsd:schema>",
+                      head(opp) + imports + "".join(decls_b) + "</xsd:schema>"]
+            if r.rng.random() < 0.5:
+                blocks.reverse()
+            out[ns] = blocks
+        elif r.split_blocks and len(decls) > 1 and r.rng is not None:
             k = r.rng.randint(1, len(decls) - 1)
-            out[ns] = [head + imports + "".join(decls[:k]) + "</xsd:schema>", head + imports + "".join(decls[k:]) + "</xsd:schema>"]
+            out[ns] = [head(form) + imports + "".join(decls[:k]) + "</xsd:schema>",
+                       head(form) + imports + "".join(decls[k:]) + "</xsd:schema>"]
         else:
-            out[ns] = [head + imports + "".join(decls) + "</xsd:schema>"]
+            out[ns] = [head(form) + imports + "".join(decls) + "</xsd:schema>"]
     return out
 
 
@@ -569,7 +638,7 @@ def _op_elements(r, iface, op, extra):
     out = []
     if op["style"] == "wrapped":
         for suffix, params in (("", op["in"]), ("Response", op["out"])):
-            inner = "".join(_member_xml(r, iface, p, 0) for p in params)
+            inner = "".join(_member_xml(r, iface, p, 0, None, extra) for p in params)
             out.append('<xsd:element name="%s%s"><xsd:complexType><xsd:sequence>%s</xsd:sequence></xsd:complexType>'
                        '</xsd:element>' % (op["name"], suffix, inner))
     elif op["style"] == "bare":
@@ -581,6 +650,7 @@ def _op_elements(r, iface, op, extra):
 def render(r, iface, location="http://svc.invalid/endpoint"):
     """-> {document name: bytes}; 'main.wsdl' is the root."""
     n = len(iface["namespaces"])
+    wns = iface["namespaces"][0]["uri"] if r.wsdl_tns_is_ns0 else WNS
     schemas = render_schemas(r, iface)
     nsdecl = " ".join('xmlns:%s="%s"' % (r.prefixes[j], iface["namespaces"][j]["uri"]) for j in range(n))
     docs = {}
@@ -631,7 +701,7 @@ def render(r, iface, location="http://svc.invalid/endpoint"):
         body = [sections[0]] + rest
     docs["main.wsdl"] = ('<?xml version="1.0" encoding="UTF-8"?><wsdl:definitions targetNamespace="%s" xmlns:wsdl="%s" '
                          'xmlns:w="%s" xmlns:soap="%s" xmlns:xsd="%s" %s>%s</wsdl:definitions>'
-                         % (WNS, WSDLNS, WNS, SOAPNS, XSD, nsdecl, "".join(x[1] for x in body))).encode("utf-8")
+                         % (wns, WSDLNS, wns, SOAPNS, XSD, nsdecl, "".join(x[1] for x in body))).encode("utf-8")
     return docs
 
 
